@@ -255,6 +255,12 @@ class World:
         return ":".join(c[len(self.R):] if c.startswith(self.R + "/") or c == self.R else c for c in v.split(":"))
 
 
+def env_has_cwd_relative(env):
+    """Does one of the three search-path values hold a component spelled relative to the current directory (`./x`)?
+    (`_get_python_path` accepts components starting with `/`, `./`, `.../` or `~/` only.)"""
+    return any(c.startswith("./") or c == "." for v in env if v for c in v.split(":"))
+
+
 def exc_name(e):
     n = type(e).__name__
     return n if n in ("ValueError", "UnsafeFilenameError", "SyntaxError", "AssertionError") else "Other:" + n
@@ -753,8 +759,11 @@ class C12(Prop):
                         DB._default_cache.clear()
                         want = ser_db(w.lookup(q), memo)
                         n += 1
-                        if got != want and len(bad) < 3:
-                            bad.append({"q": q, "cwd2": d, "got": got, "want": want})
+                        if got != want:
+                            # (kept apart so that one kind cannot crowd the other out of the report)
+                            kind = env_has_cwd_relative(q["env"])
+                            if sum(1 for b in bad if b["rel_env"] == kind) < 2:
+                                bad.append({"q": q, "cwd2": d, "got": got, "want": want, "rel_env": kind})
             finally:
                 os.chdir(here)
             obs["chdir"] = {"n": n, "bad": bad}
@@ -845,8 +854,7 @@ class C12(Prop):
             b = obs["exh"]["bad"][0]
             fails.append(dict(what="cached answer differs from a fresh load", history=b["history"], exhaustive=True,
                               got=_short(b["got"]), want=_short(b["want"])))
-        if obs.get("chdir") and obs["chdir"]["bad"]:
-            b = obs["chdir"]["bad"][0]
+        for b in (obs.get("chdir") or {}).get("bad", []):
             fails.append(dict(what="cached answer differs from a fresh load", after_chdir_to=b["cwd2"], history=[b["q"], b["q"]],
                               got=_short(b["got"]), want=_short(b["want"])))
         for c in sorted(set(obs.get("clear", []))):
@@ -1006,7 +1014,17 @@ class C12(Prop):
             return bool(extra) and all(e in got for e in want) and all(only_wide(e) for e in extra)
         return False
 
-    families = {"d15_forgotten_derived_parent": _fam_d15.__func__,
+    @staticmethod
+    def _fam_c12_5(case, f):
+        """C12-5: the current directory changed between two lookups and the search path in force has a component spelled
+        relative to it (`./x`): the first-level cache key holds the variable's text, not what it denotes."""
+        if f.get("what") != "cached answer differs from a fresh load" or "after_chdir_to" not in f:
+            return False
+        h = f.get("history") or []
+        return bool(h) and all(env_has_cwd_relative(q["env"]) for q in h)
+
+    families = {"c12_5_cwd_relative_search_path_after_chdir": _fam_c12_5.__func__,
+                "d15_forgotten_derived_parent": _fam_d15.__func__,
                 "c12_2_dev_prefix_target": _fam_c12_2.__func__,
                 "c12_4_canonical_forget_dotted_or_star": _fam_c12_4.__func__}
 
